@@ -53,7 +53,14 @@ def do_call(variant, x, verbose):
     if variant == 'sift':
         return S.sift(x, max_imfs=3, **kw)
     if variant == 'mask_sift':
-        return S.mask_sift(x, max_imfs=2, nphases=2, **kw)
+        # array-valued keyword options with many decimals: the logging decorators see (and must not touch) them
+        freqs = np.array([0.31234567, 0.12345678])
+        amps = np.array([0.71234567, 1.23456789])
+        out, used = S.mask_sift(x, max_imfs=2, nphases=2, mask_freqs=freqs, mask_amp=amps, mask_amp_mode='ratio_sig',
+                                ret_mask_freq=True, **kw)
+        if not (np.array_equal(freqs, [0.31234567, 0.12345678]) and np.array_equal(amps, [0.71234567, 1.23456789])):
+            return np.full_like(out, np.nan)    # options were modified: reported as a result difference
+        return np.c_[out, np.resize(np.asarray(used, dtype=float), out.shape[0])]
     return S.ensemble_sift(x, nensembles=2, max_imfs=2, **kw)
 
 
